@@ -23,52 +23,7 @@ open Mltwist.Listing.Spec (Lawful WF)
 
 /-! ### the instantiated UI -/
 
-/-- the parameters of `processCommand` at the real code `d` -/
-def paramsAt (info : Info) (bs : List BytesMem.Block) (rx : Str → Option (String → Bool))
-    (d : Deps.Code) : Params ESt :=
-  ⟨opsAt info d, emuOps bs (codeViewOf d), rx⟩
-
-/-- the real code after the action `act` on `args` in the mode `top`: only `move` of the disassembler mode
-touches it -/
-def actDeps (d : Deps.Code) (top : NamedMode ESt) (act : Act) (args : List ArgVal) : Deps.Code :=
-  match top.mode, args with
-  | .dis st, [.num f, .num t] => if act = .dMove then nextDeps d st (.move f t) else d
-  | _, _ => d
-
-/-- the real code after one call of `processCommand` -/
-def uiNextDeps (d : Deps.Code) (ui : UI ESt) : Input → Deps.Code
-  | [] => d
-  | line :: _ =>
-    match ui.stack with
-    | [] => d
-    | top :: _ =>
-      match parseCommand top.cmdMap line with
-      | .ok cmd args => actDeps d top cmd.act args
-      | _ => d
-
-/-- the composed state: the real code and the UI -/
-structure RUI where
-  deps : Deps.Code
-  ui : UI ESt
-
-/-- the loop of `UI.Run` over the real models -/
-def realRunWith (info : Info) (bs : List BytesMem.Block)
-    (rx : Str → Option (String → Bool)) : Nat → RUI → Input → Final
-  | 0, _, _ => .outOfFuel
-  | fuel + 1, r, inp =>
-    match uiStep (paramsAt info bs rx r.deps) r.ui inp with
-    | .cont _ ui' rest => realRunWith info bs rx fuel ⟨uiNextDeps r.deps r.ui inp, ui'⟩ rest
-    | .exited _ => .exited
-    | .eof a => .eof a
-    | .hang => .hang
-    | .panic => .panic
-
-/-- a whole session on the code `d0`: `consoleui.New(disassemble.New(code, emulF))`, then `Run` -/
-def realSession (info : Info) (bs : List BytesMem.Block)
-    (rx : Str → Option (String → Bool)) (d0 : Deps.Code) (inp : Input) : Final :=
-  match UI.init (listingOf info d0) with
-  | none => .panic
-  | some ui => realRunWith info bs rx (inp.length + 1) ⟨d0, ui⟩ inp
+-- `paramsAt`, `actDeps`, `uiNextDeps`, `RUI`, `realRunWith`, `realSession`: `Model/Compose.lean`
 
 /-! ### the invariant of the composed state -/
 
